@@ -569,6 +569,8 @@ class ServeMpsMedia(MediaRequestBase):
             seg_num = representation.start_number + mod_seg - first_seg
         else:
             mod_seg += seg_num - representation.start_number
+            if mod_seg < 1:
+                raise ValueError('Segment before start of media')
             if mod_seg > representation.num_media_segments:
                 logging.warning(
                     "Request for segment %d in file %s with duration %d",
